@@ -2,8 +2,10 @@
 // whose path template matches. Three streams (first field of the line):
 //
 //	m  one template against one component list: real gwbased.Parse + Compile + runtime.NewPattern + MatchAndEscape
-//	u  request-target parsing: real url.ParseRequestURI / http.ReadRequest (Path, RawPath, EscapedPath)
+//	u  request-target parsing: real url.ParseRequestURI / http.ReadRequest / a real net/http server reading the
+//	   request line from a TCP connection (kinds pru / req / srv): Path, RawPath, EscapedPath
 //	r  the real routing.PatternRouter (Watch + UpdateDesc per generated bridgedesc.Target, fake pool) + RouteHTTP
+//	   (kinds req / raw / path / srv; srv = RouteHTTP called inside the handler of a real net/http server)
 //
 // The line formats are documented in lean/GB/C03/Driver.lean.
 package c03
@@ -13,12 +15,17 @@ import (
 	"context"
 	"errors"
 	"fmt"
+	"io"
 	"math/rand"
+	"net"
 	"net/http"
+	"net/http/httptest"
 	"net/url"
 	"sort"
 	"strconv"
 	"strings"
+	"sync"
+	"time"
 
 	"github.com/grpc-ecosystem/grpc-gateway/v2/runtime"
 	"github.com/renbou/grpcbridge/bridgedesc"
@@ -301,10 +308,50 @@ func execURL(kind, target string) string {
 			return "err"
 		}
 		u = req.URL
+	case "srv":
+		urlSrvOnce.Do(func() {
+			urlSrv = httptest.NewServer(http.HandlerFunc(func(w http.ResponseWriter, r *http.Request) {
+				fmt.Fprintf(w, "ok %s %s %s", common.HexS(r.URL.Path), common.HexS(r.URL.RawPath), common.HexS(r.URL.EscapedPath()))
+			}))
+		})
+		code, body := rawRoundTrip(urlSrv.Listener.Addr().String(), "GET", target)
+		switch {
+		case code == 200:
+			return body
+		case code == 400:
+			return "err"
+		}
+		return fmt.Sprintf("SRVERR-%d", code)
 	default:
 		return "BADKIND"
 	}
 	return fmt.Sprintf("ok %s %s %s", common.HexS(u.Path), common.HexS(u.RawPath), common.HexS(u.EscapedPath()))
+}
+
+var (
+	urlSrvOnce sync.Once
+	urlSrv     *httptest.Server
+)
+
+// rawRoundTrip writes one HTTP/1.1 request with the given request-target VERBATIM on the request line to a real
+// net/http server over TCP and returns status code and body (code 0 = transport failure).
+func rawRoundTrip(addr, method, target string) (int, string) {
+	c, err := net.DialTimeout("tcp", addr, 5*time.Second)
+	if err != nil {
+		return 0, ""
+	}
+	defer c.Close()
+	_ = c.SetDeadline(time.Now().Add(10 * time.Second))
+	if _, err := io.WriteString(c, method+" "+target+" HTTP/1.1\r\nHost: x\r\nConnection: close\r\n\r\n"); err != nil {
+		return 0, ""
+	}
+	resp, err := http.ReadResponse(bufio.NewReader(c), nil)
+	if err != nil {
+		return 0, ""
+	}
+	defer resp.Body.Close()
+	b, _ := io.ReadAll(resp.Body)
+	return resp.StatusCode, string(b)
 }
 
 type fakeConn struct{}
@@ -353,6 +400,20 @@ func execRoute(table, method, kind, x string) string {
 	}
 	head := strings.Join(parsed, ";")
 
+	if kind == "srv" {
+		srv := httptest.NewServer(http.HandlerFunc(func(w http.ResponseWriter, r *http.Request) {
+			io.WriteString(w, routeOne(router, targets, r, head))
+		}))
+		defer srv.Close()
+		code, body := rawRoundTrip(srv.Listener.Addr().String(), method, x)
+		switch {
+		case code == 200:
+			return body
+		case code == 400:
+			return "urlerr " + head
+		}
+		return fmt.Sprintf("SRVERR-%d %s", code, head)
+	}
 	var req *http.Request
 	switch kind {
 	case "req":
@@ -369,6 +430,10 @@ func execRoute(table, method, kind, x string) string {
 	default:
 		return "BADKIND"
 	}
+	return routeOne(router, targets, req, head)
+}
+
+func routeOne(router *routing.PatternRouter, targets []*bridgedesc.Target, req *http.Request, head string) string {
 	conn, route, err := router.RouteHTTP(req)
 	if err != nil {
 		st, _ := status.FromError(err)
@@ -494,6 +559,52 @@ func genTmpl(r *rand.Rand) tmpl {
 		t.verb = common.Pick(r, verbPool)
 	}
 	return t
+}
+
+var (
+	authUserPool = []string{"", "u@", "u:p@", "u:p:q@", "u%40x:p%3A@", "u%4@", "%zz@", "u:%@", "u:p%@", "%:41@", "a b@", "\xc3\xa9@", "u@v@", "!$&'()*+,;=-._~@", "u[@", "u%2Fx@", "@", ":@", "%41:%42@", "u<@", "u\"@"}
+	authHostPool = []string{"h", "example.org", "H-1.x", "h_x", "h~", "h%41", "h%C3%A9", "h%c3%a9", "h%25", "h%2", "h%", "h%zz", "h%7F", "h%80", "\xc3\xa9", "h<>\"", "h|", "h^", "h\\", "h{}", "h`", "h,;=+*()'&$!", "h#", "h x",
+		"[::1]", "[fe80::1%25en0]", "[fe80::1%25en%20x]", "[fe80::1%25%41]", "[fe80::1%25%2F]", "[fe80::1%25%7C]", "[fe80::1%25%zz]", "[fe80::1%25a|b]", "[fe80::1%2541]", "[::1", "::1]", "[]", "[a]b", "[::1%41]", "[%25]", "[%25%25]", "[x%C3%A9%25z]", "[[::1]]", "[::1]]", "", "1.2.3.4", "[", "]", "[]]", "[::1%25"}
+	authPortPool = []string{"", ":", ":80", ":8x", ":80:90", ":-1", ":0000065536", "::", ":%38%30", ":8 0"}
+	authBytes    = []byte("hH1.-_~:@[]%25zC3A9/?#!$&'()*+,;=<>\"| \\^`{}\x7f\x80\xff\x00")
+)
+
+// genAuthority: mostly a pool combination, sometimes with a random byte inserted / replaced / deleted
+func genAuthority(r *rand.Rand) string {
+	a := common.Pick(r, authUserPool) + common.Pick(r, authHostPool) + common.Pick(r, authPortPool)
+	if r.Intn(3) == 0 {
+		b := []byte(a)
+		pos := r.Intn(len(b) + 1)
+		c := authBytes[r.Intn(len(authBytes))]
+		switch r.Intn(3) {
+		case 0:
+			b = append(b[:pos:pos], append([]byte{c}, b[pos:]...)...)
+		case 1:
+			if pos < len(b) {
+				b[pos] = c
+			}
+		case 2:
+			if pos < len(b) {
+				b = append(b[:pos:pos], b[pos+1:]...)
+			}
+		}
+		a = string(b)
+	}
+	return a
+}
+
+// srvSafe: the string can stand on a request line written to a real server without being cut or changing the
+// meaning of the line (no space, control byte, DEL; not empty)
+func srvSafe(s string) bool {
+	if s == "" {
+		return false
+	}
+	for i := 0; i < len(s); i++ {
+		if s[i] <= ' ' || s[i] == 0x7f {
+			return false
+		}
+	}
+	return true
 }
 
 func randSeg(r *rand.Rand) string {
@@ -683,6 +794,37 @@ func (Area) Gen(r *rand.Rand, tier string, emit func(string)) {
 		"http://h", "http://h/", "http://h:80/a%2541", "http://h:/a", "http://h:8x/a", "http://u@h/a", "http://[::1]/a", "http://h%41/a", "HTTP://H.example-1.org:8080/v/%2541?q=/x", "http:///a", "http:/a", "http:a", "http:", "http:?q", "http://h?q", "http://h/a?", "https://h/a/b%2Fc", "mailto:x@y", ":a", "1a:b", "a1+.-://h/p", "a/b:c", "a:b:c", "a:/b%zz", "a://h/%zz", "a://h//b", "a://h/a b", "+a://h/a", "a_b://h/a", "a://h:80:90/a", "a://h_x/a", "a://h/\x7f"} {
 		emit("u pru " + common.HexS(target))
 		emit("u req " + common.HexS(target))
+		if srvSafe(target) {
+			emit("u srv " + common.HexS(target))
+		}
+	}
+	// absolute-form targets: every built-in userinfo x host x port (parseAuthority / parseHost / validOptionalPort /
+	// unescape in the encodeHost, encodeZone and encodeUserPassword modes), each in front of a path that needs RawPath
+	for _, ui := range authUserPool {
+		for _, h := range authHostPool {
+			for _, po := range authPortPool {
+				if !thorough && ui != "" && po != "" && po != ":80" {
+					continue
+				}
+				target := "http://" + ui + h + po + "/v/%2541"
+				count("u-authority-builtin")
+				emit("u pru " + common.HexS(target))
+				emit("u req " + common.HexS(target))
+				if srvSafe(target) && (thorough || (ui == "" && po == "") || len(h) > 6) {
+					count("u-authority-srv")
+					emit("u srv " + common.HexS(target))
+				}
+			}
+		}
+	}
+	// the same through the router (request line -> http.ReadRequest / real server -> RouteHTTP)
+	for _, auth := range []string{"h", "u:p@h:80", "u%40x:p%3A@[fe80::1%25en0]:8080", "[::1]", "h%C3%A9", "h%41", "[::1", "u@v@h", "h:8x", "a%zz@h", "h<>", "h|x", "[fe80::1%25%2F]", "%C3%A9", ""} {
+		for _, path := range []string{"/v/%2541", "/a/x:get", "", "/", "/v/a%2Fb?q=http://x/y"} {
+			for _, kind := range []string{"req", "srv"} {
+				count("r-authority-builtin")
+				emit(fmt.Sprintf("r %s %s %s %s", tbl, common.HexS("GET"), kind, common.HexS("http://"+auth+path)))
+			}
+		}
 	}
 
 	// --- m: exhaustive small space: templates of ≤ 2 (quick) / ≤ 3 (thorough) segments over 7 segment shapes
@@ -781,12 +923,23 @@ func (Area) Gen(r *rand.Rand, tier string, emit func(string)) {
 			target = strings.TrimPrefix(target, "/")
 		case 3, 4: // absolute-form: scheme://authority + path
 			auth := common.Pick(r, []string{"h", "example.org", "h:80", "h:", "10.0.0.1:8080", "", "a-b.c", "u@h", "[::1]:80", "h:8x", "h%41", "h_x", "H"})
+			if r.Intn(3) != 0 {
+				auth = genAuthority(r)
+			}
+			if r.Intn(10) == 0 { // authority without a path
+				target = ""
+			}
 			target = common.Pick(r, []string{"http", "https", "a", "A1+.-", "ws"}) + "://" + auth + target
 		case 5: // scheme without authority: rooted or opaque
 			target = common.Pick(r, []string{"http:", "a:", "mailto:", ":", "1:", "a_:", "+:"}) + common.Pick(r, []string{target, strings.TrimPrefix(target, "/"), ""})
 		}
 		count("u-generated")
-		emit("u " + common.Pick(r, []string{"pru", "req"}) + " " + common.HexS(target))
+		kind := common.Pick(r, []string{"pru", "req"})
+		if r.Intn(8) == 0 && srvSafe(target) {
+			kind = "srv"
+			count("u-srv")
+		}
+		emit("u " + kind + " " + common.HexS(target))
 	}
 
 	// --- r: generated tables × requests derived from one of their bindings (or unrelated)
@@ -830,6 +983,12 @@ func (Area) Gen(r *rand.Rand, tier string, emit func(string)) {
 			}
 			if kind == "req" && r.Intn(12) == 0 {
 				path = common.Pick(r, []string{"http://h", "https://example.org:8443", "a://h:", "http://u@h"}) + path
+			} else if kind == "req" && r.Intn(12) == 0 {
+				path = common.Pick(r, []string{"http", "a+b"}) + "://" + genAuthority(r) + path
+				count("r-authority")
+			}
+			if kind == "req" && r.Intn(25) == 0 && srvSafe(path) && srvSafe(method) {
+				kind = "srv"
 			}
 			count("r-" + kind)
 			emit(fmt.Sprintf("r %s %s %s %s", table, common.HexS(method), kind, common.HexS(path)))
